@@ -104,7 +104,7 @@ type Thunk<'a, T> = Box<dyn FnOnce() -> Option<T> + Send + 'a>;
 /// plus the order in which the tasks were executed.
 fn run_region<'a, T: Send + 'a>(thunks: Vec<Thunk<'a, T>>) -> (Vec<Option<T>>, Vec<usize>) {
     let n = thunks.len();
-    let active = sched::is_active();
+    let active = sched::is_active() || pool::is_active();
     if !active || n == 0 {
         // outside an exploration: plain sequential execution in item order
         let mut order = Vec::new();
@@ -113,6 +113,9 @@ fn run_region<'a, T: Send + 'a>(thunks: Vec<Thunk<'a, T>>) -> (Vec<Option<T>>, V
             t()
         }).collect();
         return (res, order);
+    }
+    if pool::is_active() {
+        return pool::run_region(thunks);
     }
     let results: Mutex<Vec<Option<Option<T>>>> = Mutex::new((0..n).map(|_| None).collect());
     let exec_order: Mutex<Vec<usize>> = Mutex::new(Vec::new());
@@ -475,4 +478,289 @@ impl ThreadPoolBuilder {
 impl ThreadPool {
     pub fn install<R: Send, F: FnOnce() -> R + Send>(&self, f: F) -> R { f() }
     pub fn current_num_threads(&self) -> usize { 2 }
+}
+
+
+/// Worker-pool mode of the scheduler model: W worker threads execute the tasks, so thread-local state persists between the
+/// tasks a worker runs, exactly as with rayon's pool. As in rayon, the thread that opens the outermost region is not a
+/// worker (it blocks), and a worker that waits for a region it opened executes other tasks on top of its own stack
+/// (it can only resume its own task when that stolen work has returned and its region is complete).
+/// A schedule is a sequence of actions (start task t on worker w | resume worker w | resume root); every point with more
+/// than one enabled action is a recorded choice point, explored by the same stateless DFS as the thread-per-task mode.
+pub mod pool {
+    use super::*;
+    use std::cell::Cell;
+
+    type Job = Box<dyn FnOnce() + Send + 'static>;
+
+    #[derive(Clone, Copy, PartialEq, Eq, Debug)]
+    enum Actor {
+        Root,
+        Worker(usize),
+    }
+    enum Cmd {
+        Run(Job, u32),
+        Resume,
+        Exit,
+    }
+    struct Region {
+        remaining: usize,
+        owner: Actor,
+    }
+    #[derive(Default)]
+    struct State {
+        current: Option<Actor>,
+        cmds: Vec<Option<Cmd>>,
+        /// per worker: regions it is waiting for, innermost last (an empty stack = idle at its base loop)
+        waits: Vec<Vec<u32>>,
+        /// worker is at a serve loop (not running code)
+        serving: Vec<bool>,
+        pending: BTreeMap<u32, (u32, Job)>, // task id -> (region, job)
+        regions: BTreeMap<u32, Region>,
+        root_wait: Option<u32>,
+        next_task: u32,
+        next_region: u32,
+        prefix: Vec<usize>,
+        pos: usize,
+        choices: Vec<(usize, usize)>,
+        trace: Vec<(u32, u32)>, // (task id, worker) in start order; resume actions are (u32::MAX, worker)
+        diverged: Option<String>,
+    }
+
+    static STATE: Mutex<Option<State>> = Mutex::new(None);
+    static CV: Condvar = Condvar::new();
+    thread_local! {
+        static WORKER: Cell<Option<usize>> = const { Cell::new(None) };
+    }
+
+    pub fn is_active() -> bool {
+        STATE.lock().unwrap().is_some()
+    }
+
+    #[derive(Clone, Debug, Default)]
+    pub struct Outcome {
+        pub choices: Vec<(usize, usize)>,
+        /// (task, worker) in the order the tasks were started
+        pub trace: Vec<(u32, u32)>,
+        pub diverged: Option<String>,
+    }
+
+    #[derive(Clone, Copy)]
+    enum Action {
+        Start(u32, usize),
+        Resume(usize),
+        ResumeRoot,
+    }
+
+    fn enabled(st: &State) -> Vec<Action> {
+        let mut v = Vec::new();
+        // resumes first (they are "the running thread continues" of the guidance's canonical order)
+        if let Some(r) = st.root_wait {
+            if st.regions.get(&r).map(|x| x.remaining == 0).unwrap_or(true) {
+                v.push(Action::ResumeRoot);
+            }
+        }
+        for w in 0..st.waits.len() {
+            if st.serving[w] {
+                if let Some(r) = st.waits[w].last() {
+                    if st.regions.get(r).map(|x| x.remaining == 0).unwrap_or(true) {
+                        v.push(Action::Resume(w));
+                    }
+                }
+            }
+        }
+        for t in st.pending.keys() {
+            for w in 0..st.waits.len() {
+                if st.serving[w] {
+                    v.push(Action::Start(*t, w));
+                }
+            }
+        }
+        v
+    }
+
+    /// Called with the lock held by the actor that yields.
+    fn pick_next(st: &mut State) {
+        let acts = enabled(st);
+        if acts.is_empty() {
+            st.current = None;
+            return;
+        }
+        let mut pick = 0;
+        if acts.len() > 1 {
+            if st.pos < st.prefix.len() {
+                pick = st.prefix[st.pos];
+                if pick >= acts.len() {
+                    st.diverged = Some(format!("choice point {}: prefix asks for alternative {} of {}", st.pos, pick, acts.len()));
+                    pick = 0;
+                }
+            }
+            st.pos += 1;
+            st.choices.push((pick, acts.len()));
+        }
+        match acts[pick] {
+            Action::ResumeRoot => {
+                st.root_wait = None;
+                st.current = Some(Actor::Root);
+            }
+            Action::Resume(w) => {
+                st.cmds[w] = Some(Cmd::Resume);
+                st.serving[w] = false;
+                st.current = Some(Actor::Worker(w));
+                st.trace.push((u32::MAX, w as u32));
+            }
+            Action::Start(t, w) => {
+                let (_region, job) = st.pending.remove(&t).unwrap();
+                st.cmds[w] = Some(Cmd::Run(job, t));
+                st.serving[w] = false;
+                st.current = Some(Actor::Worker(w));
+                st.trace.push((t, w as u32));
+            }
+        }
+    }
+
+    /// The loop every worker sits in when it is not running code: at its base, and inside every wait for a region it opened.
+    fn serve(w: usize, until: Option<u32>) {
+        loop {
+            let cmd = {
+                let mut g = STATE.lock().unwrap();
+                loop {
+                    let st = g.as_mut().unwrap();
+                    if st.current == Some(Actor::Worker(w)) && st.cmds[w].is_some() {
+                        break st.cmds[w].take().unwrap();
+                    }
+                    g = CV.wait(g).unwrap();
+                }
+            };
+            match cmd {
+                Cmd::Exit => return,
+                Cmd::Resume => {
+                    let mut g = STATE.lock().unwrap();
+                    let st = g.as_mut().unwrap();
+                    let top = st.waits[w].pop();
+                    assert_eq!(top, until, "resume of a wait that is not innermost");
+                    return; // continue the task that opened the region (this worker keeps the baton)
+                }
+                Cmd::Run(job, _t) => {
+                    job(); // may open nested regions (re-entering serve on this stack)
+                    let mut g = STATE.lock().unwrap();
+                    let st = g.as_mut().unwrap();
+                    st.serving[w] = true;
+                    pick_next(st);
+                    CV.notify_all();
+                }
+            }
+        }
+    }
+
+    pub(crate) fn run_region<'a, T: Send + 'a>(thunks: Vec<Thunk<'a, T>>) -> (Vec<Option<T>>, Vec<usize>) {
+        let n = thunks.len();
+        let results: Arc<Mutex<Vec<Option<Option<T>>>>> = Arc::new(Mutex::new((0..n).map(|_| None).collect()));
+        let order: Arc<Mutex<Vec<usize>>> = Arc::new(Mutex::new(Vec::new()));
+        let panic_slot: Arc<Mutex<Option<Box<dyn Any + Send>>>> = Arc::new(Mutex::new(None));
+        let me = WORKER.with(|w| w.get());
+        let region;
+        {
+            let mut g = STATE.lock().unwrap();
+            let st = g.as_mut().unwrap();
+            region = st.next_region;
+            st.next_region += 1;
+            st.regions.insert(region, Region { remaining: n, owner: me.map(Actor::Worker).unwrap_or(Actor::Root) });
+            for (i, t) in thunks.into_iter().enumerate() {
+                let (results, order, panic_slot) = (results.clone(), order.clone(), panic_slot.clone());
+                let job: Box<dyn FnOnce() + Send + 'a> = Box::new(move || {
+                    order.lock().unwrap().push(i);
+                    match catch_unwind(AssertUnwindSafe(t)) {
+                        Ok(v) => results.lock().unwrap()[i] = Some(v),
+                        Err(p) => {
+                            let mut ps = panic_slot.lock().unwrap();
+                            if ps.is_none() {
+                                *ps = Some(p);
+                            }
+                        }
+                    }
+                    let mut g = STATE.lock().unwrap();
+                    let st = g.as_mut().unwrap();
+                    st.regions.get_mut(&region).unwrap().remaining -= 1;
+                });
+                // SAFETY (same argument as rayon's StackJob): the opener does not return from this function before
+                // every job of the region has run to completion, so everything the job borrows outlives it.
+                let job: Job = unsafe { std::mem::transmute::<Box<dyn FnOnce() + Send + 'a>, Job>(job) };
+                let id = st.next_task;
+                st.next_task += 1;
+                st.pending.insert(id, (region, job));
+            }
+            match me {
+                Some(w) => {
+                    st.waits[w].push(region);
+                    st.serving[w] = true;
+                }
+                None => st.root_wait = Some(region),
+            }
+            pick_next(st);
+            CV.notify_all();
+        }
+        match me {
+            Some(w) => serve(w, Some(region)),
+            None => {
+                let mut g = STATE.lock().unwrap();
+                while g.as_ref().unwrap().current != Some(Actor::Root) {
+                    g = CV.wait(g).unwrap();
+                }
+            }
+        }
+        STATE.lock().unwrap().as_mut().unwrap().regions.remove(&region);
+        if let Some(p) = panic_slot.lock().unwrap().take() {
+            resume_unwind(p);
+        }
+        let res = std::mem::take(&mut *results.lock().unwrap()).into_iter().map(|r| r.expect("task result")).collect();
+        let ord = order.lock().unwrap().clone();
+        (res, ord)
+    }
+
+    /// Run `f` on the calling thread (the root, not a worker) with `workers` fresh worker threads, replaying `prefix`.
+    pub fn run<R>(prefix: &[usize], workers: usize, f: impl FnOnce() -> R) -> (R, Outcome) {
+        {
+            let mut g = STATE.lock().unwrap();
+            assert!(g.is_none(), "nested pool::run");
+            *g = Some(State { current: Some(Actor::Root), cmds: (0..workers).map(|_| None).collect(), waits: vec![vec![]; workers], serving: vec![true; workers], prefix: prefix.to_vec(), ..Default::default() });
+        }
+        let r = std::thread::scope(|s| {
+            for w in 0..workers {
+                s.spawn(move || {
+                    WORKER.with(|c| c.set(Some(w)));
+                    serve(w, None);
+                });
+            }
+            let r = catch_unwind(AssertUnwindSafe(f));
+            // shut the workers down
+            for w in 0..workers {
+                let mut g = STATE.lock().unwrap();
+                let st = g.as_mut().unwrap();
+                st.cmds[w] = Some(Cmd::Exit);
+                st.current = Some(Actor::Worker(w));
+                CV.notify_all();
+                drop(g);
+                // wait until the worker has taken the command
+                loop {
+                    let g = STATE.lock().unwrap();
+                    if g.as_ref().unwrap().cmds[w].is_none() {
+                        break;
+                    }
+                    drop(g);
+                    std::thread::yield_now();
+                }
+            }
+            r
+        });
+        let st = STATE.lock().unwrap().take().unwrap();
+        let mut out = Outcome { choices: st.choices, trace: st.trace, diverged: st.diverged };
+        if st.pos < st.prefix.len() && out.diverged.is_none() {
+            out.diverged = Some(format!("only {} choice points met, prefix has {}", st.pos, st.prefix.len()));
+        }
+        match r {
+            Ok(v) => (v, out),
+            Err(p) => resume_unwind(p),
+        }
+    }
 }
